@@ -1,5 +1,6 @@
 import EudoxiaModel.Model.Exec
 import EudoxiaModel.Model.Dag
+import EudoxiaModel.Model.Profile
 import Driver.Json
 /-! Line-protocol driver: one command per input line, one JSON observation per output line. -/
 open Eudoxia
@@ -24,7 +25,9 @@ def showPool (p : Pool) : String :=
       (if c.canSuspend then "1" else "0"), toString c.curOpIdx, toString c.elapsed, jarr (c.ops.map toString)])) ++
   ",\"S\":" ++ jarr (p.suspending.map (fun c => jarr [toString c.cid, toString c.cpu, toString c.ram, toString c.suspLeft, toString c.curOpIdx, jarr (c.ops.map toString)])) ++
   ",\"D\":" ++ jarr (p.suspended.map (fun c => toString c.cid)) ++
-  ",\"done\":" ++ toString p.numCompleted ++ "}"
+  ",\"done\":" ++ toString p.numCompleted ++
+  ",\"K\":{\"snap\":" ++ jarr (p.killSnap.map (fun (a, b, c, d) => jarr [toString a, toString b, toString c, (if d then "1" else "0")])) ++
+  ",\"victims\":" ++ jarr (p.victims.map toString) ++ "}}"
 
 def showStates (w : World) : String :=
   jarr (w.pipes.toList.map (fun p => jstr (String.ofList ((List.range p.n).map (fun k => (w.store.stOf (p.first + k)).letter)))))
@@ -89,6 +92,26 @@ def step (d : DS) (line : String) : DS × String :=
      | .error e => (d, "{\"ok\":false,\"err\":" ++ jstr e.name ++ ",\"st\":" ++ showStates d.w ++ ",\"cnt\":" ++ showCounts d.w ++ "}")
      | .ok s' => let w' := { d.w with store := s' }
                  ({ d with w := w' }, "{\"ok\":true,\"st\":" ++ showStates w' ++ ",\"cnt\":" ++ showCounts w' ++ "}"))
+  | ["spec", cpu, ram, refs, adj] =>
+    -- adj: '-' or a comma list of io:cpu tick-count overrides, one per segment in order
+    let ops := (parseRefs d.w refs).map d.w.store.segsOf
+    let base := specTicks d.w.cfg cpu.toNat! ops
+    let ov : List (Nat × Nat) := if adj == "-" then [] else (adj.splitOn ",").map (fun t => match t.splitOn ":" with
+      | [a, b] => (a.toNat!, b.toNat!) | _ => (0, 0))
+    let ticks := if ov.isEmpty then base else
+      (base.foldl (fun (acc : List (List (Nat × Nat)) × List (Nat × Nat)) row =>
+        (acc.1 ++ [acc.2.take row.length], acc.2.drop row.length)) ([], ov)).1
+    let o := specRunWith d.w.cfg ram.toNat! ops ticks
+    let amb := ops.any (fun segs => segs.any (fun sg => (sg.cpuTicks? d.w.cfg cpu.toNat!).isNone))
+    (d, "{\"ok\":true,\"mem\":" ++ jarr (o.mem.map toString) ++ ",\"idx\":" ++ jarr (o.idx.map toString) ++
+        ",\"end\":" ++ toString o.endTick ++ ",\"success\":" ++ jb o.ok ++ ",\"completed\":" ++ toString o.completedOps ++
+        ",\"ambiguous_log\":" ++ jb amb ++
+        ",\"ticks\":" ++ jarr (base.map (fun row => jarr (row.map (fun x => jarr [toString x.1, toString x.2])))) ++ "}")
+  | ["cputicks", law, bn, bd, cpus] =>
+    let sg : Seg := { baseNum := bn.toNat!, baseDen := bd.toNat!, law := (Law.ofName law).getD .const }
+    (d, match sg.cpuTicks? d.w.cfg cpus.toNat! with
+        | some k => "{\"ok\":true,\"ticks\":" ++ toString k ++ "}"
+        | none => "{\"ok\":true,\"ticks\":null}")
   | ["reset"] => ({}, "{\"ok\":true}")
   | "check" :: which :: rest =>
     let text := " ".intercalate rest
